@@ -70,6 +70,8 @@ def check(ctx):
     check_tree_versions(ctx)
     check_backfill(ctx)
     check_level_keys(ctx)
+    from .C10 import check_node_identity
+    check_node_identity(ctx, ('type_assignment.election', 'taxonomy.taxonomy_tree'), floor=2)
 
 
 def _node_of(cfg, rd, astn):
